@@ -320,6 +320,14 @@ def op_observer_needs_fallible(rng, spec, m):
         return None
     t = rng.choice(cands)
     o["ins"] = [i for i in o["ins"] if i[0] != t] + [[t, "ref"]]
+    placement = "last"
+    singles = [u for u, ty in spec["types"].items() if ty["lc"] == "singleton" and not ty.get("generic") and m.resolve((), u)
+               and u not in (spec.get("dep") or {}).get("types", [])]
+    if singles and rng.random() < 0.6:
+        # the offending input comes first and a singleton (exempt from the rule) after it: every input has to be examined
+        s1 = rng.choice(singles)
+        o["ins"] = [[t, "ref"]] + [i for i in o["ins"] if i[0] not in (t, s1)] + [[s1, "ref"]]
+        placement = "first_then_singleton"
     cur = t
     for _ in range(depth - 1):
         c = m.resolve((), cur)
@@ -330,7 +338,7 @@ def op_observer_needs_fallible(rng, spec, m):
     for c in spec["ctors"].values():
         if c["out"] == cur:
             c["fallible"] = rng.choice(spec["errors"])
-    return {"observer": oid, "fallible_type": cur, "depth": depth}
+    return {"observer": oid, "fallible_type": cur, "depth": depth, "placement": placement}
 
 
 def op_route_overlap(rng, spec, m):
